@@ -114,7 +114,7 @@ FeatS == [flagkey |-> "enabled", validators |-> <<"needs_key">>] @@
          SchemaF(<< <<"enabled", With(BoolF, [default |-> BoolV(FALSE)]) @@ [flag |-> TRUE]>>,
                     <<"key", With(StringF, [required |-> TRUE])>> >>)
 DeepV == SchemaF(<< <<"z", With(StringF, [required |-> TRUE, default |-> s(<<"z", "z">>)])>> >>)
-CoreS == [validators |-> <<"x_lt_y">>] @@
+CoreS == [validators |-> <<"x_lt_y">>, ctype |-> TRUE] @@
          SchemaF(<< <<"x", With(IntF, [required |-> TRUE])>>, <<"y", With(IntF, [default |-> IntV(5)])>>, <<"deep", DeepV>> >>)
 ItemV == [validators |-> <<"host_not_x">>] @@
          SchemaF(<< <<"host", With(StringF, [required |-> TRUE])>>, <<"port", With(IntF, [default |-> IntV(1)])>> >>)
